@@ -38,3 +38,8 @@ def pair_differences_stacked(X, Y):
 def pair_differences_other_order(X, Y):
     # (control) Y-major order: row j * len(X) + i holds X[i] - Y[j] - NOT the same table
     return np.concatenate([X - y for y in Y])
+
+
+def stack_columns_c(X, Z):
+    # (control) np.c_ joins column blocks like np.column_stack / np.hstack
+    return np.c_[X, Z]
